@@ -21,6 +21,7 @@ import numpy as np
 
 from checks.c02 import rand_layout
 from harness import alpha, compare, core, gamma, shims, tlc, util
+from harness import spell
 
 INV = ["ListedOnce", "RowPerField", "Emit"]
 _ORIG_TABLE = None
@@ -108,7 +109,7 @@ def run_scenario(chk, sc, cfgseed, ndims):
         return "minuterie printed %s, the header time is %r" % (m.group(1), A["hdr"]["time"])
     # ---- menu
     try:
-        txt = capture(lambda: Menu(plt_file=d, description=(mode == "description"), min_max=(mode == "minmax"),
+        txt = capture(lambda: Menu(plt_file=spell.of(d, cfgseed)[0], description=(mode == "description"), min_max=(mode == "minmax"),
                                    finest_lv=(mode == "finest")))
     except Exception as e:
         return "menu (%s) raised %s: %s" % (mode, type(e).__name__, str(e)[:150])
